@@ -452,6 +452,10 @@ def check_compare(dim):
                  u * u - MultiVector({0: m[0, 0] + m[1, 1]}, space)]
     if dim >= 3:
         pool += [(e[0] ^ e[1]) * e[2], e[0] * (e[1] ^ e[2]), e[2] | (e[0] ^ e[2])]
+    if dim >= 2:
+        # index-tuple keys in either order, cancelling or adding up, against the same multivectors built with + and *
+        pool += [MultiVector({(0, 1): 3, (1, 0): 3}, space), MultiVector({(0, 1): 3, (1, 0): -3}, space), 6 * (e[0] ^ e[1]),
+                 MultiVector({(1, 0): 1}, space), MultiVector({(): 0, (0,): 1}, space), MultiVector({(0, 1): 0}, space)]
     # symbolic (expression) coefficients: equal trees as coefficients compare equal, different ones do not
     import pymbolic.primitives as prim
     xs, ys = prim.Variable("x"), prim.Variable("y")
@@ -481,6 +485,81 @@ def check_compare(dim):
             _viol(res, f"bool dim={dim} {X.data}", "ga-bool", f"dim {dim}: bool({X!r}) = {bool(X)}, but its non-zero coefficients are {coeffs(X)}")
     res.paths = 1
     return res
+
+
+def check_ctor(dim, tier):
+    """Construction from a mapping keyed by index TUPLES (any order) or bitmaps with symbolic coefficients a, b that may be
+    zero or cancel: the stored coefficient equals the signed sum, and truth-testing / == agree with coefficient-wise
+    comparison (no explicit zero may be stored).  z3 decides per path for all a, b."""
+    from pymbolic.geometric_algebra import MultiVector
+    sym.set_family("real")
+    res = ItemResult(item=f"constructor dim={dim}", sample={"dimension": dim})
+    q = Query()
+    stats = []
+    a, b = sym.var("a", "real")[0], sym.var("b", "real")[0]
+
+    def parity(perm):
+        inv = sum(1 for i in range(len(perm)) for j in range(i + 1, len(perm)) if perm[i] > perm[j])
+        return -1 if inv % 2 else 1
+
+    cases = []
+    for S in all_blades(dim):
+        perms = list(itertools.permutations(S))
+        cases.append(("bitmap", S, None, None))
+        for p1 in perms:
+            cases.append(("tuple1", S, p1, None))
+            for p2 in perms:
+                if p1 < p2:
+                    cases.append(("tuple2", S, p1, p2))
+    for kind, S, p1, p2 in cases:
+        bits = bits_of(S)
+
+        def build(space, a_, b_, kind=kind, p1=p1, p2=p2, bits=bits):
+            if kind == "bitmap":
+                return MultiVector({bits: a_}, space), a_
+            if kind == "tuple1":
+                return MultiVector({p1: a_}, space), parity(p1) * a_
+            return MultiVector({p1: a_, p2: b_}, space), parity(p1) * a_ + parity(p2) * b_
+
+        def harness(build=build):
+            space, g = make_space(dim, "real")
+            M, c = build(space, a, b)
+            ref = MultiVector({}, space)
+            return g, dict(M.data), bool(M), c, (M == ref), (M != ref)
+        ex = Explorer(pre=[], max_paths=64, timeout_ms=10000)
+        what = f"ctor dim={dim} {kind} {p1 if p1 is not None else bits}{'' if p2 is None else ' ' + str(p2)}"
+        for path in ex.run(harness):
+            if path.exc is not None:
+                _viol(res, f"{what} raises", "ga-raises", f"{what}: raised {path.exc!r}")
+                break
+            g, data, truth, c, eq0, ne0 = path.result
+            res.path_assertions += 1
+            cterm = sym.to_term(c, "real") if hasattr(sym, "to_term") else c.term
+            nz = cterm != 0
+            stored = data.get(bits, 0)
+            goal = z3.And(sym.eq_term(stored, c, "real"), z3.BoolVal(bool(truth)) == nz,
+                          z3.BoolVal(bool(eq0)) == z3.Not(nz), z3.BoolVal(bool(ne0)) == nz,
+                          z3.BoolVal(set(data) <= {bits}))
+            verdict, model = q.valid(path.pc, goal)
+            if verdict == "unsat":
+                continue
+            if verdict == "unknown":
+                res.status = "inconclusive"
+                continue
+            vals = _model_vals(model, g, {"a": a, "b": b})
+            space = _concrete_space(dim, vals)
+            Mc, cc = build(space, vals["a"], vals["b"])
+            refc = MultiVector({}, space)
+            ok = (Mc.data.get(bits, 0) == cc and bool(Mc) == (cc != 0) and (Mc == refc) == (cc == 0)
+                  and (Mc != refc) == (cc != 0) and set(Mc.data) <= {bits})
+            if ok:
+                raise HarnessError(f"{what}: counterexample did not reproduce with {vals}")
+            _viol(res, what, "ga-ctor",
+                  f"{what} with {vals}: data={ {k_: str(v) for k_, v in Mc.data.items()} } bool={bool(Mc)} "
+                  f"==0:{Mc == refc} !=0:{Mc != refc}; signed coefficient sum is {cc}")
+            return H.finish(res, stats + [ex.stats], q)
+        stats.append(ex.stats)
+    return H.finish(res, stats, q)
 
 
 def check_bitkernels(nbits, tier):
@@ -609,7 +688,7 @@ def items(tier):
     dims = range(0, 4) if tier == "quick" else range(0, 5)
     out = []
     for d in dims:
-        out += [("pairs", d), ("assoc", d), ("unary", d), ("compare", d)]
+        out += [("pairs", d), ("assoc", d), ("unary", d), ("compare", d), ("ctor", d)]
     if tier == "thorough":
         out.append(("pairs", 5))
     out += [("bilinear", 0), ("bilinear", 1)]
@@ -637,6 +716,8 @@ def check_item(item, tier):
         return check_bilinear(item[1], tier, *(item[2:] if len(item) > 2 else ()))
     if k == "compare":
         return check_compare(item[1])
+    if k == "ctor":
+        return check_ctor(item[1], tier)
     if k == "bits":
         return check_bitkernels(item[1], tier)
     raise ValueError(item)
